@@ -122,8 +122,12 @@ def fault_plans(base):
 
 
 class Search:
-    def __init__(self, v, ex, max_files, max_stmts, depth, max_faulty):
+    def __init__(self, v, ex, max_files, max_stmts, depth, max_faulty, wall_cap=None):
         self.v, self.ex = v, ex
+        self.wall_cap = wall_cap
+        self.t0 = __import__("time").time()
+        self.capped = False
+        self.completed_depth = 0
         self.max_files, self.max_stmts, self.depth, self.max_faulty = max_files, max_stmts, depth, max_faulty
         self.seen = {}
         self.transitions = 0
@@ -214,6 +218,11 @@ class Search:
             self.max_depth = max(self.max_depth, d)
             if d >= self.depth:
                 continue
+            # BFS order: when a state of depth d is taken from the queue, every state of depth < d has been expanded
+            self.completed_depth = d
+            if self.wall_cap and __import__("time").time() - self.t0 > self.wall_cap:
+                self.capped = True
+                break
             succ = []
             # developer events
             for label, t2, r2 in dev_events(tree, set(retired), self.max_files, self.max_stmts):
@@ -344,7 +353,7 @@ def count_sweep(v, ex, s, tier):
 def run(tier, v):
     ex = fsx.Explorer()
     if tier == "thorough":
-        s = Search(v, ex, max_files=3, max_stmts=5, depth=6, max_faulty=2)
+        s = Search(v, ex, max_files=3, max_stmts=5, depth=6, max_faulty=2, wall_cap=int(__import__("os").environ.get("VERIF_C02_CAP_S", "1200")))
     else:
         s = Search(v, ex, max_files=2, max_stmts=3, depth=4, max_faulty=1)
     # roots: produced by the real tool from ID-free trees, so every ID in them was genuinely written by Breadlog
@@ -371,7 +380,8 @@ def run(tier, v):
     v.coverage["dominance_failures_without_concrete_reuse"] = s.dominance_notes
     v.coverage["bounds"] = {"max_files": s.max_files, "max_live_statements": s.max_stmts, "depth": s.depth, "faulty_runs_per_history": s.max_faulty}
     v.subspace("BFS over (tree, lock, retired IDs) from 3 start states; events: add/newfile/del_max/del/delfile, check, edit, and edit with one "
-               "kill-after / I/O failure / SIGTERM / SIGINT at every operation of that run", len(s.seen), exhaustive=True)
+               "kill-after / I/O failure / SIGTERM / SIGINT at every operation of that run", len(s.seen), exhaustive=not s.capped,
+               **({"wall_cap_hit_s": s.wall_cap, "all_states_of_depth_below_this_were_expanded": s.completed_depth} if s.capped else {}))
     samples = [k for k in list(s.seen)[:400:80]]
     for k in samples[:4]:
         v.sample({"state": repr(k[0]), "faulty_runs_used": k[1], "depth": s.seen[k]})
